@@ -542,30 +542,28 @@ def path_xseq(J, ctx, it, A, f, t, gl, texts, mk, allowed):
         exc = None
     except allowed as e:
         ads, exc = None, e
-    # every character has been decided on this path (forks): evaluate the concrete reference on the model and
-    # check that the path condition determines the text
-    if ctx.is_sat([]) != "sat":
-        return
-    m = ctx.model()
-    text = model_str(m, seq)
-    J.claim(ctx, z3.And(*[zint(c) == ord(ch) for c, ch in zip(seq.chars, text)]), "xseq: path does not determine the sequence (harness)", mk)
-    exp = ref_x(text, t["atype"])
+    # the reference ref_x (above, written from the user guide) is executed by the same interpreter on the same
+    # symbolic text: its forks are decided under the path condition of the implementation's path, and the two
+    # outcomes are compared on every joint path
+    import os
+    program().extra_files.add(os.path.realpath(__file__))
+    exp = it.call_value(ref_x, [seq, t["atype"]], {})
     J.obligations += 1
+    ok = False
     if exc is not None:
         ok = exp[0] == "error" and isinstance(exc, exp[1])
-    else:
-        ok = exp[0] == "ok" and type(ads[0]).__name__ == exp[1]["cls"]
-        if ok:
-            r = V.str_eq(ads[0].sequence, exp[1]["seq"])
-            ok = r is True or (r is not False and J.claim(ctx, r, "xseq: adapter sequence differs from the documented core sequence", mk) is True)
+    elif exp[0] == "ok" and type(ads[0]).__name__ == exp[1]["cls"]:
+        r = V.str_eq(ads[0].sequence, exp[1]["seq"])
+        ok = r is True or (r is not False and J.claim(ctx, r, "xseq: adapter sequence differs from the documented core sequence", mk) is True)
     if ok:
         J.discharged += 1
         J.nontrivial = 1
     else:
         J.violated += 1
-        if J.cex is None:
+        if J.cex is None and ctx.is_sat([]) == "sat":
+            m = ctx.model()
             J.cex = mk(m)
-            J.cex["what"] = "X handling: %r as %s gives %s, documented: %s" % (text, t["atype"], repr(exc) if exc is not None else (type(ads[0]).__name__, model_str(m, ads[0].sequence) if not isinstance(ads[0].sequence, str) else ads[0].sequence), exp)
+            J.cex["what"] = "X handling: %r as %s gives %s, documented: %s" % (model_str(m, seq), t["atype"], repr(exc) if exc is not None else type(ads[0]).__name__, exp[0] if exp[0] == "error" else exp[1]["cls"])
 
 
 def run_job(job):
